@@ -82,15 +82,17 @@ def write_runner_sources(plugs):
     """coq/extract/C11/{Extract.v,driver.ml} expose rules_<p>/answers_<p> of every plug-in."""
     names = [p.NAME for p in plugs if os.path.exists(os.path.join(vlib.THEORIES, "Puzzle", "Rules_%s.v" % p.NAME))]
     t1 = [(p.NAME,) + tuple(p.TIER1) for p in plugs if getattr(p, "TIER1", None)]
+    # models of the native-operator route (config.use_graph_primitive / use_graph_division_primitive on)
+    t1p = [(p.NAME,) + tuple(p.TIER1_PRIM) for p in plugs if getattr(p, "TIER1_PRIM", None)]
     ev = ["Require Extraction.", "Require Import ExtrOcamlBasic.", "From Coq Require Import ZArith List.",
           "Require Import Cspuz.Lib.PyErr.", "Require Import Cspuz.Core.Expr.", "Require Import Cspuz.Core.Program.",
           "Require Import Cspuz.Puzzle.PuzzleBase."]
     for n in names:
         ev.append("Require Import Cspuz.Puzzle.Rules_%s." % n)
-    for (_, modname, _) in t1:
+    for (_, modname, _) in t1 + t1p:
         ev.append("Require Import Cspuz.Puzzle.%s." % modname)
     ev.append('Extraction "model.ml" Z.add Nat.add pyerr_code empty_state %s %s.' % (
-        " ".join("rules_%s answers_%s" % (n, n) for n in names), " ".join(f for (_, _, f) in t1)))
+        " ".join("rules_%s answers_%s" % (n, n) for n in names), " ".join(f for (_, _, f) in t1 + t1p)))
     dm = ["(* generated by harness/c11lib.py from the plug-in list - do not edit *)", "open Model", "open Zutil", "",
           "let table = ["]
     for n in names:
@@ -99,6 +101,10 @@ def write_runner_sources(plugs):
     dm.append("(* Tier-1 models: problem -> res state *)")
     dm.append("let models = [")
     for (n, _, f) in t1:
+        dm.append('  ("%s", %s);' % (n, f))
+    dm.append("]")
+    dm.append("let models_prim = [")
+    for (n, _, f) in t1p:
         dm.append('  ("%s", %s);' % (n, f))
     dm.append("]")
     dm.append(r'''
@@ -118,6 +124,10 @@ let rec sections toks = match toks with
 let handle toks = match toks with
   | "M" :: name :: rest ->
       (match (List.assoc name models) (sections rest) with
+       | Ok st -> "OK " ^ Exprio.show_state st
+       | Err e -> "E " ^ string_of_int (int_of_nat (pyerr_code e)))
+  | "MP" :: name :: rest ->
+      (match (List.assoc name models_prim) (sections rest) with
        | Ok st -> "OK " ^ Exprio.show_state st
        | Err e -> "E " ^ string_of_int (int_of_nat (pyerr_code e)))
   | op :: name :: rest ->
